@@ -49,7 +49,7 @@ from ..width import cw
 ID = "C05"
 LEVEL = "model_checking"
 ENGINE = "E2"
-CAP_S = {"quick": int(os.environ.get("VF_C05_CAP", 480)), "thorough": int(os.environ.get("VF_C05_CAP", 1800))}
+CAP_S = {"quick": int(os.environ.get("VF_C05_CAP", 480)), "thorough": int(os.environ.get("VF_C05_CAP", 3000))}
 TECHNIQUE = ("explicit-state BFS over editing histories on the real rich.text.Text with an independent "
              "list-of-(char, style) reference model in lock-step, deduplicated by canonical state key")
 LEVEL_TEXT = ("Every editing event of the menu is executed on the real Text from every reached canonical state up to "
